@@ -25,74 +25,86 @@ func hBit(name string, lo, hi uint64) uint64 {
 	return v
 }
 
+// hBitK returns 1<<k for a forked k (the first fork of the entry, so that the
+// shard workers split on it) with lo <= 1<<k <= hi.
+func hBitK(name string, lo, hi uint64) uint64 {
+	k := vfChoice(name, 32)
+	v := uint64(1) << uint(k)
+	if v < lo || v > hi {
+		vfCut("bit outside the flag range")
+	}
+	return v
+}
+
 //vf:unwind 300
-//vf:shards 3
-func VfC18_FlagSets() {
-	which := vfChoice("type", 3)
-	switch which {
-	case 0:
-		f1 := hBit("f1", uint64(enum.DIFlagFirst), uint64(enum.DIFlagLast))
-		acc := uint64(vfByte("acc"))
-		vfAssume(acc <= 3)
-		// only declared members (undefined bits have no keyword)
-		vfAssume(!strings.HasPrefix(enum.DIFlag(f1).String(), "DIFlag("))
-		flags := enum.DIFlag(f1 | acc)
-		{
-			f2 := hBit("f2", uint64(enum.DIFlagFirst), uint64(enum.DIFlagLast))
-			vfAssume(!strings.HasPrefix(enum.DIFlag(f2).String(), "DIFlag("))
-			flags |= enum.DIFlag(f2)
+//vf:shards 16
+func VfC18_FlagSets_DIFlag() {
+	f1 := hBitK("k1", uint64(enum.DIFlagFirst), uint64(enum.DIFlagLast))
+	acc := uint64(vfByte("acc"))
+	vfAssume(acc <= 3)
+	// only declared members (undefined bits have no keyword)
+	vfAssume(!strings.HasPrefix(enum.DIFlag(f1).String(), "DIFlag("))
+	f2 := hBit("f2", uint64(enum.DIFlagFirst), uint64(enum.DIFlagLast))
+	vfAssume(!strings.HasPrefix(enum.DIFlag(f2).String(), "DIFlag("))
+	flags := enum.DIFlag(f1 | f2 | acc)
+	md := &metadata.DIBasicType{MetadataID: 0, Name: "x", Flags: flags}
+	src := md.Ident() + " = " + md.LLString() + "\n"
+	m, err := ParseString("t.ll", src)
+	vfReach("C18.flags.diflag")
+	vfObserveStr("src", src)
+	vfAssert("C18.DIFlag.set.accepted", err == nil)
+	if err == nil {
+		back := m.MetadataDefs[0].(*metadata.DIBasicType).Flags
+		vfAssert("C18.DIFlag.set.roundtrip", back == flags)
+	}
+}
+
+//vf:unwind 300
+//vf:shards 8
+func VfC18_FlagSets_DISPFlag() {
+	f1 := hBitK("k1", uint64(enum.DISPFlagFirst), uint64(enum.DISPFlagLast))
+	f2 := hBit("f2", uint64(enum.DISPFlagFirst), uint64(enum.DISPFlagLast))
+	vfAssume(!strings.HasPrefix(enum.DISPFlag(f1).String(), "DISPFlag("))
+	vfAssume(!strings.HasPrefix(enum.DISPFlag(f2).String(), "DISPFlag("))
+	flags := enum.DISPFlag(f1 | f2)
+	md := &metadata.DISubprogram{MetadataID: 0, Name: "f", SPFlags: flags, Distinct: true}
+	src := md.Ident() + " = " + md.LLString() + "\n"
+	m, err := ParseString("t.ll", src)
+	vfReach("C18.flags.dispflag")
+	vfObserveStr("src", src)
+	vfAssert("C18.DISPFlag.set.accepted", err == nil)
+	if err == nil {
+		back := m.MetadataDefs[0].(*metadata.DISubprogram).SPFlags
+		vfAssert("C18.DISPFlag.set.roundtrip", back == flags)
+	}
+}
+
+//vf:unwind 300
+//vf:shards 4
+func VfC18_FlagSets_AllocKind() {
+	f1 := hBitK("k1", uint64(enum.AllocKindFirst), uint64(enum.AllocKindLast))
+	f2 := hBit("f2", uint64(enum.AllocKindFirst), uint64(enum.AllocKindLast))
+	kind := enum.AllocKind(f1 | f2)
+	mod := ir.NewModule()
+	f := mod.NewFunc("f", types.Void)
+	f.FuncAttrs = append(f.FuncAttrs, ir.AllocKind{Kind: kind})
+	src := mod.String()
+	m, err := ParseString("t.ll", src)
+	vfReach("C18.flags.allockind")
+	vfObserveStr("src", src)
+	vfAssert("C18.AllocKind.set.accepted", err == nil)
+	if err == nil {
+		var back enum.AllocKind
+		ok := false
+		switch ak := m.Funcs[0].FuncAttrs[0].(type) {
+		case ir.AllocKind:
+			back, ok = ak.Kind, true
+		case *ir.AllocKind:
+			back, ok = ak.Kind, true
 		}
-		md := &metadata.DIBasicType{MetadataID: 0, Name: "x", Flags: flags}
-		src := md.Ident() + " = " + md.LLString() + "\n"
-		m, err := ParseString("t.ll", src)
-		vfReach("C18.flags.diflag")
-		vfObserveStr("src", src)
-		vfAssert("C18.DIFlag.set.accepted", err == nil)
-		if err == nil {
-			back := m.MetadataDefs[0].(*metadata.DIBasicType).Flags
-			vfAssert("C18.DIFlag.set.roundtrip", back == flags)
-		}
-	case 1:
-		f1 := hBit("f1", uint64(enum.DISPFlagFirst), uint64(enum.DISPFlagLast))
-		f2 := hBit("f2", uint64(enum.DISPFlagFirst), uint64(enum.DISPFlagLast))
-		vfAssume(!strings.HasPrefix(enum.DISPFlag(f1).String(), "DISPFlag("))
-		vfAssume(!strings.HasPrefix(enum.DISPFlag(f2).String(), "DISPFlag("))
-		flags := enum.DISPFlag(f1 | f2)
-		md := &metadata.DISubprogram{MetadataID: 0, Name: "f", SPFlags: flags, Distinct: true}
-		src := md.Ident() + " = " + md.LLString() + "\n"
-		m, err := ParseString("t.ll", src)
-		vfReach("C18.flags.dispflag")
-		vfObserveStr("src", src)
-		vfAssert("C18.DISPFlag.set.accepted", err == nil)
-		if err == nil {
-			back := m.MetadataDefs[0].(*metadata.DISubprogram).SPFlags
-			vfAssert("C18.DISPFlag.set.roundtrip", back == flags)
-		}
-	default:
-		f1 := hBit("f1", uint64(enum.AllocKindFirst), uint64(enum.AllocKindLast))
-		f2 := hBit("f2", uint64(enum.AllocKindFirst), uint64(enum.AllocKindLast))
-		kind := enum.AllocKind(f1 | f2)
-		mod := ir.NewModule()
-		f := mod.NewFunc("f", types.Void)
-		f.FuncAttrs = append(f.FuncAttrs, ir.AllocKind{Kind: kind})
-		src := mod.String()
-		m, err := ParseString("t.ll", src)
-		vfReach("C18.flags.allockind")
-		vfObserveStr("src", src)
-		vfAssert("C18.AllocKind.set.accepted", err == nil)
-		if err == nil {
-			var back enum.AllocKind
-			ok := false
-			switch ak := m.Funcs[0].FuncAttrs[0].(type) {
-			case ir.AllocKind:
-				back, ok = ak.Kind, true
-			case *ir.AllocKind:
-				back, ok = ak.Kind, true
-			}
-			vfAssert("C18.AllocKind.set.kind", ok)
-			if ok {
-				vfAssert("C18.AllocKind.set.roundtrip", back == kind)
-			}
+		vfAssert("C18.AllocKind.set.kind", ok)
+		if ok {
+			vfAssert("C18.AllocKind.set.roundtrip", back == kind)
 		}
 	}
 }
